@@ -8,6 +8,7 @@
 #include <ipr/io>
 #include <ipr/traversal>
 #include <ostream>
+#include <utility>
 #include <cctype>
 #include <typeinfo>
 #include <stdexcept>
@@ -401,7 +402,19 @@ namespace ipr {
          }
          void visit(const Expr& e) override
          {
-            pp << token('(') << xpr_expr(e) << token(')');
+            // An expression that no level of the printer handles comes back here:
+            // refuse it instead of parenthesizing it forever.
+            if (pp.parenthesized == &e)
+               Missing_overrider{ }(e);
+            const auto outer = std::exchange(pp.parenthesized, &e);
+            try {
+               pp << token('(') << xpr_expr(e) << token(')');
+            }
+            catch (...) {
+               pp.parenthesized = outer;
+               throw;
+            }
+            pp.parenthesized = outer;
          }
          void visit(const Decl& d) override { d.name().accept(*this); }
       };
@@ -1472,9 +1485,15 @@ namespace ipr {
       void visit(const Forall& t) final
       { pp << xpr_type_expr(t); }
 
+      void visit(const Decltype& t) final
+      { pp << xpr_type_expr(t); }
+
       void visit(const Type& t) final
       {
-         // FIXME: Check.
+         // A composite type is named by the type-id of itself: one that reaches
+         // this point has no printer, and printing its name would never end.
+         if (auto id = util::view<Type_id>(t.name()); id != nullptr and physically_same(id->type_expr(), t))
+            Missing_overrider{ }(t);
          pp << xpr_name(t.name());
       }
 
